@@ -48,6 +48,8 @@ var (
 	cWork         = simrt.RegisterCounter("op_frames_processed")
 	cSharedJobs   = simrt.RegisterCounter("op_shared_readonly_frames")
 	cMarshalArena = simrt.RegisterCounter("op_marshal_and_mic_on_frames_over_the_arena")
+	cOwnerUse     = simrt.RegisterCounter("used_value_has_numbers_flags_addresses_set_by_its_owner_before_the_next_decode")
+	cMarshalOnly  = simrt.RegisterCounter("op_marshal_only_inspects_decoded_and_owner_set_values")
 	cHandBuilt    = simrt.RegisterCounter("op_validate_and_marshal_on_hand_built_frames_in_unusual_states")
 	cHandRefused  = simrt.RegisterCounter("hand_built_frame_refused_by_every_operation_tried")
 	cOtherCID     = simrt.RegisterCounter("op_reuse_decode_command_then_another_cid")
